@@ -379,7 +379,7 @@ def parse_nuclide_str(nuclide: str) -> str:
     original_input = nuclide
     nuclide = "".join(nuclide.split())  # Remove all whitespaces (Issue #65).
     nuclide = nuclide.replace("-", "", 1)  # Strip out first hyphen
-    if not nuclide.isalnum():
+    if not (nuclide.isalnum() and nuclide.isascii()):
         raise NuclideStrError(
             original_input,
             "Nuclide strings must contain only letters, numbers, and (optionally) up to one "
